@@ -1195,12 +1195,9 @@ func cloneRegexp(re *syntax.Regexp) *syntax.Regexp {
 		}
 	}
 
-	// Clone Sub0 (inline storage)
-	for i := range re.Sub0 {
-		if re.Sub0[i] != nil {
-			clone.Sub0[i] = cloneRegexp(re.Sub0[i])
-		}
-	}
+	// Sub0 is only inline backing storage for Sub. It is not part of the tree:
+	// after parser simplification it can hold stale pointers (even cycles), so
+	// following it may never terminate. Sub above is the complete child list.
 
 	return clone
 }
